@@ -114,6 +114,18 @@ def handleAnalyze (j : Json) : Except String Json := do
   | .ok () => return Json.mkObj [("ok", true)]
   | .error e => return Json.mkObj [("ok", false), ("error", toJson e)]
 
+def handleListing (j : Json) : Except String Json := do
+  let m ← Listing.modFromJson (← j.getObjVal? "root")
+  let names : List String ← fromJson? (← j.getObjVal? "names")
+  let byName ← j.getObjValAs? Bool "showByName"
+  let targets := names.map (fun (n : String) => Json.mkObj [("name", Json.str n),
+    ("run", toJson ((Listing.runTarget m n).map (·.id))),
+    ("show", toJson ((Listing.showTarget byName m n).map (·.id)))])
+  return Json.mkObj [("summary", toJson (Listing.summary false "" m)),
+    ("summaryUnsorted", toJson (Listing.summary true "" m)),
+    ("list", toJson (Listing.listNames false m)), ("listUnsorted", toJson (Listing.listNames true m)),
+    ("choose", toJson ((Listing.chooseHere false m).map (·.name))), ("targets", Json.arr targets.toArray)]
+
 def handle (line : String) : Json :=
   match Json.parse line with
   | .error e => Json.mkObj [("fatal", s!"parse: {e}")]
@@ -131,6 +143,7 @@ def handle (line : String) : Json :=
       | "dotenv" => handleDotenv j
       | "unstable" => handleUnstable j
       | "analyze" => handleAnalyze j
+      | "listing" => handleListing j
       | "shsplit" => handleShSplit j
       | _ => throw s!"unknown op {op}"
     match r with
